@@ -67,7 +67,7 @@ func checkC02(c *Ctx) {
 		"cannot reach the next pass without testing vm.GetReturnValue(), and the non-nil edge of that test leaves the loop - so 输出 ends the body from any nesting depth; (C02.signals) the three loop drivers treat a block " +
 		"error identically (*zerr.Signal Continue -> next pass, Break -> return nil, anything else returned unchanged) and no other function inspects those signal kinds, so a signal reaches exactly the innermost loop; " +
 		"(C02.branch) every condition is asserted *Bool (comma-ok, error otherwise), each branch block is guarded by its own condition's true edge, is followed by a return, and later conditions are evaluated only on the false edges of earlier ones; " +
-		"(C02.while) the condition is evaluated on every cycle before the body; (C02.iter) the list pass binds index+1; (C02.last) a block's fall-off value is the last statement's value. " +
+		"(C02.dictorder) the dictionary pass walks the key-order list and insert / overwrite / 移除 keep that list in insertion order (same rules as C12.sync); (C02.while) the condition is evaluated on every cycle before the body; (C02.iter) the list pass binds index+1; (C02.last) a block's fall-off value is the last statement's value. " +
 		"NOT decided: termination, what a particular program displays."
 	R.Assumptions = []string{"vm.GetReturnValue reads the return slot of the current call frame (pkg/runtime/vm.go)", "Go's range over a slice visits elements in index order"}
 	u := c.Core()
@@ -328,6 +328,12 @@ func checkC02(c *Ctx) {
 		R.check(okIdx, "C02.iter", "pkg/exec.evalIterateStmt:index", u.pos(f.Pos()), "list elements are visited with 1-based index (range index + 1)", "the index bound for list iteration is not range index + 1")
 	} else {
 		R.lost("C02.iter", "pkg/exec.evalIterateStmt")
+	}
+
+	// ---- C02.dictorder: 遍历 over a dictionary follows keyOrder (C11.order) and the owners keep keyOrder = insertion order
+	ruleKeyOrderSync(c, u, "C02.dictorder")
+	if f := u.ssaFunc("pkg/exec", "evalIterateStmt"); f != nil {
+		R.check(len(u.callsNamed(f, "pkg/value.HashMap.GetKeyOrder")) == 1, "C02.dictorder", "pkg/exec.evalIterateStmt:GetKeyOrder", u.pos(f.Pos()), "the dictionary pass walks GetKeyOrder()", "the dictionary pass does not walk the key-order list")
 	}
 
 	// ---- C02.last
